@@ -83,13 +83,35 @@ func c05Base(algo string, mule bool, universe string) *nHist {
 // list holds each goroutine until the other one has read as well (or 300 ms passed: a schedule that the
 // code excludes, e.g. by a mutex, simply does not occur). Reported: the sent list afterwards.
 func c05Conc(algo string, forced bool, scratch string, round int) string {
+	return c05ConcK(algo, forced, scratch, round, 2)
+}
+
+// c05ConcK: k transmissions of one bundle fail at the same moment (k peers, all of them fail).
+func c05ConcK(algo string, forced bool, scratch string, round int, k int) string {
 	h := c05Base(algo, false, "plain")
 	h.op = "CONC." + algo
 	h.bundles = h.bundles[:1]
-	h.oracle = map[[2]int]string{{1, 1}: "0", {2, 1}: "0"}
-	h.cand = [][2]nEid{{nEid{2, 0}, nEid{5, 0}}, {nEid{3, 0}, nEid{5, 0}}}
-	h.events = []nEvent{{kind: 'U', addr: 1}, {kind: 'U', addr: 2}, {kind: 'S', tag: 1}}
-	dir := filepath.Join(scratch, fmt.Sprintf("conc-%s-%v-%d", algo, forced, round))
+	h.oracle = map[[2]int]string{}
+	h.cand = nil
+	h.events = nil
+	h.peers = nil
+	var failedNames []string
+	for a := 1; a <= k; a++ {
+		h.peers = append(h.peers, nPeer{a, nEid{a + 1, 0}})
+		h.oracle[[2]int{a, 1}] = "0"
+		h.cand = append(h.cand, [2]nEid{{a + 1, 0}, {5, 0}})
+		h.events = append(h.events, nEvent{kind: 'U', addr: a})
+		failedNames = append(failedNames, fmt.Sprintf("%d.0", a+1))
+	}
+	if k > 3 {
+		// peer 5 would be the destination's node: use another far destination
+		for i := range h.cand {
+			h.cand[i][1] = nEid{9, 0}
+		}
+		h.bundles[0].dst = nEid{9, 0}
+	}
+	h.events = append(h.events, nEvent{kind: 'S', tag: 1})
+	dir := filepath.Join(scratch, fmt.Sprintf("conc-%s-%v-%d-%d", algo, forced, round, k))
 	defer os.RemoveAll(dir)
 	r := &nRun{h: h, dir: dir, clas: map[int]*nCLA{}, count: map[[3]int]int{}}
 	r.t0 = bpv7.DtnTimeNow()
@@ -111,7 +133,7 @@ func c05Conc(algo string, forced bool, scratch string, round int) string {
 			}
 			mu.Lock()
 			arrived++
-			if arrived == 2 {
+			if arrived == k {
 				close(both)
 			}
 			mu.Unlock()
@@ -124,7 +146,7 @@ func c05Conc(algo string, forced bool, scratch string, round int) string {
 	} else {
 		// no hook: release both failing Sends together and let the scheduler decide
 		var wg sync.WaitGroup
-		wg.Add(2)
+		wg.Add(k)
 		r.gate = func(addr, tag int, ok bool) {
 			wg.Done()
 			wg.Wait()
@@ -149,7 +171,7 @@ func c05Conc(algo string, forced bool, scratch string, round int) string {
 	r.mu.Lock()
 	nlog := len(r.log)
 	r.mu.Unlock()
-	return fmt.Sprintf("CONC.%s forced=%d sends=%d failed=2.0+3.0 sent=%s", algo, f, nlog, nEidList(es))
+	return fmt.Sprintf("CONC.%s forced=%d k=%d sends=%d failed=%s sent=%s", algo, f, k, nlog, strings.Join(failedNames, "+"), nEidList(es))
 }
 
 // c05NewRun: a run with its mock CLAs and an open core on a fresh store directory.
@@ -447,6 +469,9 @@ func TestVerifC05(t *testing.T) {
 		for i := 0; i < rounds; i++ {
 			fmt.Fprintln(out, c05Conc(algo, true, scratch, i))
 			fmt.Fprintln(out, c05Conc(algo, false, scratch, i))
+			// three and four simultaneous failures (a lock that is only right for two would pass the lines above)
+			fmt.Fprintln(out, c05ConcK(algo, false, scratch, i, 3))
+			fmt.Fprintln(out, c05ConcK(algo, false, scratch, i, 4))
 		}
 	}
 
